@@ -611,6 +611,7 @@ func (h *hist) step() (name, desc string, ok bool) {
 		backup := h.t.Clone()
 		bs := h.singles
 		h.cloneFresh = false
+		prevPending := h.pending
 		d, err, applicable := op.fn(h)
 		if !applicable {
 			continue
@@ -618,7 +619,11 @@ func (h *hist) step() (name, desc string, ok bool) {
 		h.indexFresh = h.cloneFresh // any other edit ends the "as handed over" state
 		switch op.name {
 		case "NNI":
-			h.pendingOK = h.pending != nil
+			// a rearrangement kept by THIS step can be undone later; one kept earlier stays as it was (still good
+			// after Apply+Undo of another one, still lost if an edit in between changed the shape)
+			if h.pending != nil && h.pending != prevPending {
+				h.pendingOK = true
+			}
 		case "Reroot", "RotateInternalNodes", "RotateNeighbors", "SortNeighborsByTips", "Decorate", "Scale", "NNI.UndoLater", "RefreshIndexesPiecewise":
 			// the four subtrees around the rearranged branch are still there
 		default:
